@@ -31,6 +31,9 @@ type node struct {
 
 	// The current state of the runnable in this node.
 	state nodeState
+	// Whether the goroutine running the runnable has been started and has not yet reported its result. A runnable
+	// that signaled DONE keeps running until it returns; only then may its subtree be restarted.
+	running bool
 
 	// Backoff used to keep runnables from being restarted too fast.
 	bo *backoff.ExponentialBackOff
